@@ -597,12 +597,12 @@ func (x *scanCtx) c04() {
 	x.s.stats.Probe("clamp certainly applies")
 	if bound > k.Desired {
 		if a.ReqCalls != 1 || k.Desired+a.Requested != bound {
-			x.viol("C04", "c04-clamp-exact", "", ifs(int64(gs.MaxEff) < k.Max, "max_nodes<cloud-max", "cloud-max"), fmt.Sprintf("need >= %d on desired %d exceeds bound %d: expected one request landing on %d, saw %d call(s) adding %d", minRem, k.Desired, bound, bound, a.ReqCalls, a.Requested), a.Increase...)
+			x.viol("C04", "c04-clamp-exact", "", ifs(hasAckedTerminate(gs), "after-same-scan-removal", ifs(int64(gs.MaxEff) < k.Max, "max_nodes<cloud-max", "cloud-max")), fmt.Sprintf("need >= %d on desired %d exceeds bound %d: expected one request landing on %d, saw %d call(s) adding %d", minRem, k.Desired, bound, bound, a.ReqCalls, a.Requested), a.Increase...)
 		}
 	} else {
 		x.s.stats.Probe("no headroom")
 		if a.ReqCalls != 0 {
-			x.viol("C04", "c04-clamp-exact", "no-headroom", "", fmt.Sprintf("desired %d already at bound %d yet %d request(s) were made", k.Desired, bound, a.ReqCalls), a.Increase...)
+			x.viol("C04", "c04-clamp-exact", "no-headroom", ifs(int64(gs.MaxEff) < k.Max, "max_nodes<cloud-max", "cloud-max"), fmt.Sprintf("desired %d already at bound %d yet %d request(s) were made", k.Desired, bound, a.ReqCalls), a.Increase...)
 		}
 	}
 }
@@ -729,7 +729,7 @@ func (x *scanCtx) c05() {
 		x.s.stats.Probe("N* exactly integral")
 	}
 	if S < nTol && !clamped {
-		x.viol("C05", "c05-insufficient", "", "", fmt.Sprintf("requests cpu=%vm mem=%vB, node %vm/%vB, threshold %d%%: need %d nodes in service, scan ends with %d (untainted %d + untainted-now %d + requested %d)", a.ReqCPU, a.ReqMem, cCPU, cMem, g.ScaleUp, n, S, a.U, a.UntaintOK, a.Requested), a.Increase...)
+		x.viol("C05", "c05-insufficient", "", ifs(hasAckedTerminate(gs), "after-same-scan-removal", ""), fmt.Sprintf("requests cpu=%vm mem=%vB, node %vm/%vB, threshold %d%%: need %d nodes in service, scan ends with %d (untainted %d + untainted-now %d + requested %d)", a.ReqCPU, a.ReqMem, cCPU, cMem, g.ScaleUp, n, S, a.U, a.UntaintOK, a.Requested), a.Increase...)
 	}
 	if S > n+1 {
 		site := ""
@@ -820,6 +820,9 @@ func (x *scanCtx) c06() {
 		x.s.stats.Probe("trigger fired (capacity added outside the up band)")
 		return // c06-trigger-tainted above covers the "never taints" clause
 	}
+	if trigger {
+		okTaints[0] = true // the trigger may have turned the decision into a scale-up that found no headroom
+	}
 	if !okTaints[a.TaintOK] {
 		x.viol("C06", "c06-wrong-count", "", site, fmt.Sprintf("u=%s%% bands=%v rates slow=%d fast=%d untainted=%d min=%d: expected %v taints, saw %d", a.UMax.FloatString(6), bandList(a), g.Slow, g.Fast, a.U, gs.MinEff, keysInt(okTaints), a.TaintOK), putsOf(a, "taint")...)
 	}
@@ -827,7 +830,7 @@ func (x *scanCtx) c06() {
 		k := a.KnownEnd
 		noRoom := len(a.Tainted) == 0 && k.Valid && k.Desired >= boundOf(gs, k)
 		if int64(a.UntaintOK)+a.Requested < 1 && !noRoom {
-			x.viol("C06", "c06-wrong-direction", "no-scale-up", site, fmt.Sprintf("u=%s%% above the scale-up threshold %d but no capacity was added", a.UMax.FloatString(6), g.ScaleUp))
+			x.viol("C06", "c06-wrong-direction", "no-scale-up", ifs(hasAckedTerminate(gs), "after-same-scan-removal", site), fmt.Sprintf("u=%s%% above the scale-up threshold %d but no capacity was added", a.UMax.FloatString(6), g.ScaleUp))
 		}
 	}
 }
@@ -1635,6 +1638,15 @@ func (x *scanCtx) c19() {
 			x.s.stats.Probe("two removal batches in one scan")
 		}
 	}
+}
+
+func hasAckedTerminate(gs *GroupScan) bool {
+	for _, c := range gs.Calls {
+		if c.Op == OpTerminateASG && c.Err == "" {
+			return true
+		}
+	}
+	return false
 }
 
 func hasAckedForceTerminate(gs *GroupScan) bool {
